@@ -30,6 +30,45 @@ theorem C11_unknown (sess : Session) (uuid path mode : String) (fs : FS) (src : 
   simp only [save, hm]
   rfl
 
+/-- … for EVERY kind of input (`save(path, x, 'w')` with x a node, an array, a dict, a Metadata, a list or tuple of anything, or
+    something that cannot be saved at all): write mode on an existing path is refused, whatever the file holds; a failing save
+    returns no file system, so the file is untouched -/
+theorem C11_write_refuses_every_input (sess : Session) (uuid path mode : String) (fs : FS) (inp : Input) (opt : TreeOpt)
+    (st : FileState) (hex : fsLookup fs path = some st)
+    (hm : classifyMode (effectiveMode mode none) = some .write) :
+    ∃ w, saveInput sess uuid fs path inp mode opt none = .error (.refused w) := by
+  cases inp with
+  | node s => exact C11_write_refuses sess uuid path mode fs s opt st hex hm
+  | array b => exact C11_write_refuses sess uuid path mode fs _ opt st hex hm
+  | dict e => exact C11_write_refuses sess uuid path mode fs _ opt st hex hm
+  | metadata n e => exact C11_write_refuses sess uuid path mode fs _ opt st hex hm
+  | list items =>
+    refine ⟨"file exists", ?_⟩
+    simp only [saveInput, hm, hex, Option.isSome_some, Bool.and_true, beq_self_eq_true, if_true]
+    rfl
+  | other =>
+    refine ⟨"invalid type for data", ?_⟩
+    simp only [saveInput, hm]
+    rfl
+
+/-- … and an unknown mode string is rejected for every kind of input -/
+theorem C11_unknown_every_input (sess : Session) (uuid path mode : String) (fs : FS) (inp : Input) (opt : TreeOpt)
+    (ep : Option String) (hm : classifyMode (effectiveMode mode ep) = none) :
+    ∃ w, saveInput sess uuid fs path inp mode opt ep = .error (.refused w) := by
+  cases inp with
+  | node s => exact C11_unknown sess uuid path mode fs s opt ep hm
+  | array b => exact C11_unknown sess uuid path mode fs _ opt ep hm
+  | dict e => exact C11_unknown sess uuid path mode fs _ opt ep hm
+  | metadata n e => exact C11_unknown sess uuid path mode fs _ opt ep hm
+  | list items =>
+    refine ⟨"unrecognized mode", ?_⟩
+    simp only [saveInput, hm]
+    rfl
+  | other =>
+    refine ⟨"unrecognized mode", ?_⟩
+    simp only [saveInput, hm]
+    rfl
+
 /-- overwrite = delete, then exactly what a write into the now fresh path does: nothing of the old file can
     survive, because the old file is not an input of the right-hand side -/
 theorem C11_overwrite (sess : Session) (uuid path mode wmode : String) (fs : FS) (src : Src) (opt : TreeOpt)
